@@ -973,3 +973,150 @@ func allocatesNamed(fn *ssa.Function, n *types.Named) bool {
 	})
 	return found
 }
+
+// ruleCtxAfterCancel (ORDER/RETRY): a function that cancels a context it owns (calls the `cancel`
+// field of a struct whose sibling field `ctx` came from the same WithCancel) must not hand that
+// very context to another call afterwards - the call is dead on arrival (ServerConn.Stop deletes
+// the session's mailboxes on the relay with c.ctx: after cancel() both deletions fail and the old
+// rendezvous stays occupied). Checked for every function of both packages.
+func ruleCtxAfterCancel(c *Checker, rule string) {
+	w := c.w
+	n := 0
+	for _, fn := range w.Funcs {
+		if p := w.pkgShort(fn); p != targetMbox && p != targetGBN {
+			continue
+		}
+		var cancels []ssa.Instruction
+		allInstrs(fn, func(in ssa.Instruction) {
+			call, ok := in.(*ssa.Call)
+			if !ok || call.Common().IsInvoke() {
+				return
+			}
+			ld, ok := unwrapLoadAlloc(call.Common().Value).(*ssa.UnOp)
+			if !ok || ld.Op != token.MUL {
+				return
+			}
+			fa, ok := ld.X.(*ssa.FieldAddr)
+			if !ok {
+				return
+			}
+			if f := structFieldOf(fa); f != nil && f.Name() == "cancel" {
+				cancels = append(cancels, in)
+			}
+		})
+		if len(cancels) == 0 {
+			continue
+		}
+		for _, cn := range cancels {
+			call := cn.(*ssa.Call)
+			recvFA := unwrapLoadAlloc(call.Common().Value).(*ssa.UnOp).X.(*ssa.FieldAddr)
+			n++
+			bad := ""
+			allInstrs(fn, func(in ssa.Instruction) {
+				ci, ok := in.(ssa.CallInstruction)
+				if !ok || in == cn {
+					return
+				}
+				if _, isDefer := in.(*ssa.Defer); isDefer {
+					return
+				}
+				for _, a := range ci.Common().Args {
+					ld, ok := unwrapLoadAlloc(a).(*ssa.UnOp)
+					if !ok || ld.Op != token.MUL {
+						continue
+					}
+					fa, ok := ld.X.(*ssa.FieldAddr)
+					if !ok {
+						continue
+					}
+					f := structFieldOf(fa)
+					if f == nil || f.Name() != "ctx" || w.canonFB(embeddedRoot(fa.X)) != w.canonFB(embeddedRoot(recvFA.X)) {
+						continue
+					}
+					if pathExists(cn, in, nil) {
+						bad = calleeLabel(ci.Common()) + " at " + w.pos(instrPos(in))
+					}
+				}
+			})
+			c.decide(bad == "", rule, fnName(fn)+"|the cancelled context is not used afterwards", instrPos(cn),
+				"no call receives the struct's ctx after its cancel()",
+				fnName(fn)+" hands the context it has just cancelled to "+bad+": that call fails at once (for ServerConn.Stop: the session's mailboxes are never deleted on the relay and the rendezvous stays occupied)")
+		}
+	}
+	if n < 3 {
+		c.fail(rule, "cancel sites", 0, fmt.Sprintf("only %d cancel() sites found", n))
+	}
+}
+
+// ruleSyncerQuit (EXIT, C12): queue.stop() closes queue.quit, and that is the only thing that
+// ends syncer.waitForSync / proceedAfterTime early. The channel newQueue hands to newSyncer must
+// therefore be the one it stores in queue.quit, made before the hand-over (a nil channel blocks
+// for ever: Close then waits out the whole sync timeout and the helper goroutines outlive it).
+func ruleSyncerQuit(c *Checker) {
+	w := c.w
+	nq := w.Func("gbn.newQueue")
+	ns := w.Func("gbn.newSyncer")
+	fQuit := w.Field("gbn.queue.quit")
+	fSQuit := w.Field("gbn.syncer.quit")
+	if nq == nil || ns == nil || fQuit == nil || fSQuit == nil {
+		c.anchorFail("gbn.newQueue / gbn.newSyncer / queue.quit / syncer.quit")
+		return
+	}
+	// (1) newSyncer stores its quit parameter into syncer.quit
+	okStore := false
+	for _, st := range w.Stores(fSQuit) {
+		if st.Parent() == ns {
+			if p, ok := st.Val.(*ssa.Parameter); ok && p.Type().String() == "chan struct{}" {
+				okStore = true
+			}
+		}
+	}
+	// (2) in newQueue the argument is the channel stored into queue.quit, and that store is a MakeChan
+	// that happens before the call
+	okArg, why := false, "no call of newSyncer in newQueue"
+	for _, ci := range findCalls(nq, func(ci ssa.CallInstruction) bool { return ci.Common().StaticCallee() == ns }) {
+		args := ci.Common().Args
+		arg := unwrapLoadAlloc(args[len(args)-1])
+		why = "the channel handed to newSyncer is " + w.canonFB(arg)
+		var mk ssa.Value
+		for _, st := range w.Stores(fQuit) {
+			if st.Parent() != nq {
+				continue
+			}
+			if _, isMk := st.Val.(*ssa.MakeChan); isMk && instrDominates(st, ci) {
+				mk = st.Val
+			}
+		}
+		if mk == nil {
+			why = "queue.quit is not made before newSyncer is called"
+			continue
+		}
+		if arg == mk || isLoadOfField(arg, fQuit) {
+			okArg = true
+		}
+	}
+	c.decide(okStore && okArg, "EXIT", "newQueue|the syncer waits on the channel queue.stop() closes", nq.Pos(),
+		"queue.quit is made first and handed to newSyncer, which stores it",
+		"the syncer's quit channel is not the (already made) channel that queue.stop() closes ("+why+"): a Close during the post-resend sync wait is not noticed - wg.Wait() sits out the sync timeout and the proceedAfterTime goroutines outlive Close")
+}
+
+// embeddedRoot strips loads of embedded (anonymous) struct fields: for the promoted field c.ctx
+// (really c.connKit.ctx) it returns c.
+func embeddedRoot(v ssa.Value) ssa.Value {
+	for i := 0; i < 4; i++ {
+		ld, ok := unwrapLoadAlloc(v).(*ssa.UnOp)
+		if !ok || ld.Op != token.MUL {
+			return v
+		}
+		fa, ok := ld.X.(*ssa.FieldAddr)
+		if !ok {
+			return v
+		}
+		f := structFieldOf(fa)
+		if f == nil || !f.Embedded() {
+			return v
+		}
+		v = fa.X
+	}
+	return v
+}
